@@ -18,7 +18,7 @@ RULE = ('Hypothesis-drawn (script, spec, -j 1, strategy, mutator subset - half o
         'files and identical sequences of written contents (digests incl. comments). '
         'A difference is classified: a run in which a fresh variable was introduced '
         '=> bucket fresh-name; anything else => other/<what differs>.  Non-trivial: '
-        '>= 2 accepted steps; distinct = distinct case.  One case in eight: the command prints its answer and then hangs on the original and on a quarter of the candidates (--timeout 0.25); in one repetition it prints only after the deadline.  In addition, for typed scripts the '
+        '>= 2 accepted steps; distinct = distinct case.  One case in ten: the command prints its answer and then hangs on the original and on a quarter of the candidates (--timeout 0.25); in one repetition it prints only after the deadline.  In addition, for typed scripts the '
         'ordered list of all proposals of all mutators is computed in two fresh processes '
         'with different PYTHONHASHSEED (same file => same node ids) and must be identical; '
         'half of these inputs declare names colliding with this process\'s fresh names.')
@@ -59,7 +59,7 @@ def cases(draw):
         c['fresh_disabled'] = True
         c['slow_cc'] = True
     c['hang_print'] = False
-    if not c['slow_cc'] and draw(st.integers(0, 7)) == 0:
+    if not c["slow_cc"] and draw(st.integers(0, 9)) == 0:
         # the command prints its answer and then hangs on the original and on a quarter of
         # the candidates (golden run and these candidates time out alike); in one repetition
         # it prints only after the deadline.  What a timed-out run printed must not matter.
